@@ -1010,6 +1010,13 @@ def alloc_check(prop, tier):
 def platform_part(run, prop, tier):
     """the OS-facing layer on the platforms this host is not: common.rs + emitters compiled for (os, arch) pairs against
     shims of the OS items, driven through the PatchTrait entry points; Trace_Flush under `prop`"""
+    # design level: one code modification as each system sees it (one action per OS call), every entry offset of two pages, both
+    # patch lengths, entry and trampoline writes -- the page rules and the dirty-set discipline that Trace_Flush then applies
+    # to the recorded runs
+    r = tlc.check("MC_Platform", "MC_Platform_q", workers=4, timeout=1200)
+    run.add_model(r)
+    if r["violation"]:
+        run.design_violation(r)
     scen = []
     for variant in ("linux-x64", "linux-a64", "linux-arm", "windows-x64", "windows-a64", "macos-a64", "macos-x64"):
         # 4088: the last word-aligned entry whose 12 bytes (every arm64 / arm patch) reach into the next page by 4 only
@@ -2232,6 +2239,10 @@ DEVIATIONS = [
     ("MC_Geom", "MC_Geom_q", {"RangeTest": '"offByOne"'}, ("OnPath", "Arrives", "InRange")),
     ("MC_Geom", "MC_Geom_q", {"MprotectSpan": '"firstPage"'}, ("NoFault",)),
     ("MC_Geom", "MC_Geom_q", {"EndOffset": "0"}, ("OnPath", "Arrives", "InRange")),
+    ("MC_Platform", "MC_Platform_q", {"ProtectLen": '"eight"'}, ("NoFault",)),
+    ("MC_Platform", "MC_Platform_q", {"ProtectLen": '"firstpage"'}, ("NoFault",)),
+    ("MC_Platform", "MC_Platform_q", {"TrampFlush": "FALSE"}, ("FlushedAtReturn",)),
+    ("MC_Platform", "MC_Platform_q", {"JitBack": "FALSE"}, ("ExecModeAtReturn",)),
     ("MC_Async", "MC_Async_q", {"RestoreOnDrop": "FALSE"}, ("FakedOnlyWhileAlive", "LastFakeWins")),
     ("MC_Async", "MC_Async_q", {"IsolateSiblings": "FALSE"}, ("LastFakeWins",)),
     ("MC_Arms", "MC_Arms", {"AssignBeforeCount": "TRUE"}, ("SideEffects",)),
